@@ -1,0 +1,111 @@
+//! Verification hooks (cargo feature `verif`, off by default).
+//!
+//! Part (a): read-only accessors for crate-private fields of the `tree` types, so that a harness outside of
+//! this crate can project a [`ClassFile`](crate::tree::class::ClassFile) into its own model. Nothing here
+//! changes behaviour: every function only hands out a reference to, or a copy of, what the tree already holds.
+//!
+//! Part (b) (`Masked*` wrappers around the tree-building visitors, for the partial-visitor checks) is not
+//! built yet; it goes at the end of this file.
+
+use java_string::JavaString;
+use crate::tree::annotation::Annotation;
+use crate::tree::attribute::Attribute;
+use crate::tree::class::ClassName;
+use crate::tree::field::FieldSignature;
+use crate::tree::method::code::{Label, LabelRange};
+use crate::tree::module::{Module, ModuleExports, ModuleName, ModuleOpens, ModuleProvides, ModuleRequires, PackageName};
+use crate::tree::record::RecordComponent;
+use crate::tree::type_annotation::{TargetInfoField, TypeAnnotation, TypePath, TypePathKind};
+use crate::tree::version::Version;
+
+/// `(major, minor)` of a class file version.
+pub fn version_major_minor(version: &Version) -> (u16, u16) {
+	(version.major, version.minor)
+}
+
+/// The identity of a label. Only equality between ids of one `Code` is meaningful.
+pub fn label_id(label: &Label) -> u16 {
+	label.id
+}
+
+/// `(start, end)` of a label range; `end` is exclusive.
+pub fn label_range_bounds(range: &LabelRange) -> (Label, Label) {
+	(range.start, range.end)
+}
+
+/// The steps of a type path as `(type_path_kind, type_argument_index)` pairs, with the numbering of JVMS 4.7.20.2.
+pub fn type_path_steps(type_path: &TypePath) -> Vec<(u8, u8)> {
+	type_path.path.iter()
+		.map(|step| match step {
+			TypePathKind::ArrayDeeper => (0, 0),
+			TypePathKind::NestedDeeper => (1, 0),
+			TypePathKind::WildcardBound => (2, 0),
+			TypePathKind::TypeArgument { index } => (3, *index),
+		})
+		.collect()
+}
+
+pub fn module_name(module: &Module) -> &ModuleName {
+	&module.name
+}
+pub fn module_flags(module: &Module) -> u16 {
+	module.flags.into()
+}
+pub fn module_version(module: &Module) -> Option<&JavaString> {
+	module.version.as_ref()
+}
+pub fn module_requires(module: &Module) -> &[ModuleRequires] {
+	&module.requires
+}
+pub fn module_exports(module: &Module) -> &[ModuleExports] {
+	&module.exports
+}
+pub fn module_opens(module: &Module) -> &[ModuleOpens] {
+	&module.opens
+}
+pub fn module_uses(module: &Module) -> &[ClassName] {
+	&module.uses
+}
+pub fn module_provides(module: &Module) -> &[ModuleProvides] {
+	&module.provides
+}
+
+/// `(name, flags, version)`
+pub fn module_requires_parts(requires: &ModuleRequires) -> (&ModuleName, u16, Option<&JavaString>) {
+	(&requires.name, requires.flags.into(), requires.version.as_ref())
+}
+/// `(package, flags, exports_to)`
+pub fn module_exports_parts(exports: &ModuleExports) -> (&PackageName, u16, &[ModuleName]) {
+	(&exports.name, exports.flags.into(), &exports.exports_to)
+}
+/// `(package, flags, opens_to)`
+pub fn module_opens_parts(opens: &ModuleOpens) -> (&PackageName, u16, &[ModuleName]) {
+	(&opens.name, opens.flags.into(), &opens.opens_to)
+}
+/// `(service, provides_with)`
+pub fn module_provides_parts(provides: &ModuleProvides) -> (&ClassName, &[ClassName]) {
+	(&provides.name, &provides.provides_with)
+}
+
+pub fn record_component_signature(record_component: &RecordComponent) -> Option<&FieldSignature> {
+	record_component.signature.as_ref()
+}
+pub fn record_component_annotations(record_component: &RecordComponent, visible: bool) -> &[Annotation] {
+	if visible {
+		&record_component.runtime_visible_annotations
+	} else {
+		&record_component.runtime_invisible_annotations
+	}
+}
+pub fn record_component_type_annotations(record_component: &RecordComponent, visible: bool) -> &[TypeAnnotation<TargetInfoField>] {
+	if visible {
+		&record_component.runtime_visible_type_annotations
+	} else {
+		&record_component.runtime_invisible_type_annotations
+	}
+}
+pub fn record_component_attributes(record_component: &RecordComponent) -> &[Attribute] {
+	&record_component.attributes
+}
+
+// Part (b): `Masked*` visitor wrappers (caller-chosen interest mask, caller-chosen declined members) go below.
